@@ -67,9 +67,25 @@ structure Trace (ρ : Type) where
   cancel : List Bool
   seen : List (Option Bool)
   left : Nat
+  /-- every observation point so far was a point of quiescence of the model (see `quiescent`) -/
+  quiet : Bool := true
 
-def observe (c : Config σ ρ) (k : Nat) (tr : Trace ρ) : Trace ρ :=
+/-- The model's counterpart of the harness' quiescence: nothing can move except members still waiting at
+their gate (`.start`) and the caller cancelling - no step of the closer, of the collector, or of a member
+goroutine that has been released is enabled.  The harness observes the code only at such points; the
+driver checks that the schedule it runs (`settle`, `block`) has indeed brought the model to one at every
+observation point, and answers `!model-not-quiescent` otherwise (it never does: a broken correspondence
+of the two schedules would show as a disagreement on every such case rather than pass unnoticed). -/
+def quiescent (C : Consumer σ ρ) (c : Config σ ρ) : Bool :=
+  (step C c .closer).isNone && (step C c .consumer).isNone
+    && (List.range c.members.length).all fun i =>
+      match c.members[i]? with
+      | some .start => true
+      | _ => (step C c (.member i)).isNone
+
+def observe (C : Consumer σ ρ) (c : Config σ ρ) (k : Nat) (tr : Trace ρ) : Trace ρ :=
   { tr with
+    quiet := tr.quiet && quiescent C c
     cancel := tr.cancel ++ [c.cancelled]
     ret := match tr.ret, c.cons with
       | none, .returned _ _ => some k
@@ -81,12 +97,12 @@ def serialGo (C : Consumer σ ρ) (pc : Option Nat) : Nat → List Nat → Confi
     let c := if pc = some k then stepD C c .env else c
     let tr := { tr with seen := tr.seen.set i (some c.cancelled) }
     let c := exec C c (block i)
-    serialGo C pc (k + 1) rest c (observe c (k + 1) tr)
+    serialGo C pc (k + 1) rest c (observe C c (k + 1) tr)
 
 /-- The thread-level model under the harness' schedule, with what the harness observes. -/
 def runSerial (C : Consumer σ ρ) (behs : List Beh) (order : List Nat) (pc : Option Nat) : Trace ρ :=
   let c0 := exec C (Config.spawn C behs) settle
-  let tr0 := observe c0 0 ⟨none, none, [], List.replicate behs.length none, 0⟩
+  let tr0 := observe C c0 0 ⟨none, none, [], List.replicate behs.length none, 0, true⟩
   let (c, tr) := serialGo C pc 0 order c0 tr0
   { tr with
     result := match c.cons with
@@ -100,6 +116,7 @@ def showSeen (xs : List (Option Bool)) : String :=
 def showNats (xs : List Nat) : String := dash (",".intercalate (xs.map toString))
 
 def showTrace (n : Nat) (out : Option String) (tr : Trace ρ) (inv : List Nat) : String :=
+  if !tr.quiet then "!model-not-quiescent" else
   (out.getD "noreturn") ++ " ret=" ++ (match tr.ret with | none => "-" | some k => toString k)
     ++ " cancel=" ++ (if n = 0 then "-" else String.join (tr.cancel.map showBit))
     ++ " seen=" ++ showSeen tr.seen ++ " inv=" ++ showNats inv ++ " left=" ++ toString tr.left
@@ -118,7 +135,7 @@ def runOne (behs : List Beh) (order : List Nat) (pc : Option Nat) : Single × Tr
   let ret := if n = 0 then 0 else runAt.getD (tried - 1) 0 + 1
   let cancel := (List.range (n + 1)).map fun k => match pc with | some p => decide (p < k) | none => false
   let seen := (List.range n).map fun i => if i < tried then some (saw.getD i false) else none
-  (res, ⟨some res, some ret, cancel, seen, 0⟩, List.range tried)
+  (res, ⟨some res, some ret, cancel, seen, 0, true⟩, List.range tried)
 
 def runMany (n : Nat) (a : Int) (behs : List Beh) (order : List Nat) (pc : Option Nat) : String :=
   let tr := runSerial (upTo n a) behs order pc
@@ -164,12 +181,12 @@ def showOnOff : Nat → String
 def runExecMany (a : Int) (behs : List Beh) (order : List Nat) (pc : Option Nat) : Option Many × Trace Unit × List Nat :=
   let n := behs.length
   let tr := runSerial (upTo n a) behs order pc
-  (tr.result, ⟨none, tr.ret, tr.cancel, tr.seen, tr.left⟩, List.range n)
+  (tr.result, ⟨none, tr.ret, tr.cancel, tr.seen, tr.left, tr.quiet⟩, List.range n)
 
 def runExecSingle (C : Consumer σ Single) (behs : List Beh) (order : List Nat) (pc : Option Nat) : Option Many × Trace Unit × List Nat :=
   let n := behs.length
   let tr := runSerial C behs order pc
-  (tr.result.map (singleResult n), ⟨none, tr.ret, tr.cancel, tr.seen, tr.left⟩, List.range n)
+  (tr.result.map (singleResult n), ⟨none, tr.ret, tr.cancel, tr.seen, tr.left, tr.quiet⟩, List.range n)
 
 /-- `Execute(strategy)` over gated members: the result, the trace and the members invoked. -/
 def runExecute (strat : String) (behs : List Beh) (order : List Nat) (pc : Option Nat) :
@@ -183,7 +200,7 @@ def runExecute (strat : String) (behs : List Beh) (order : List Nat) (pc : Optio
   | "race" => some (runExecSingle race behs order pc)
   | "one" =>
     let (res, tr, inv) := runOne behs order pc
-    some (some (singleResult n res), ⟨none, tr.ret, tr.cancel, tr.seen, tr.left⟩, inv)
+    some (some (singleResult n res), ⟨none, tr.ret, tr.cancel, tr.seen, tr.left, tr.quiet⟩, inv)
   | _ => none
 
 def handleGroup (trait rpc strat : String) (behs : List Beh) (order : List Nat) (pc : Option Nat)
